@@ -15,19 +15,18 @@ Print Assumptions C03_or_factoring_keeps_rows.
 
 (* handing a filter to the parquet reader in disjunctive normal form (shared with C18) *)
 From DX Require Import DNF DNFProofs.
-(* predicates without `!=`: the reader (null-dropping, Kleene) keeps exactly the rows pandas keeps *)
+(* every predicate that is handed to the reader (null-dropping, Kleene): it keeps exactly the rows pandas keeps *)
 Theorem C03_reader_filter_sound : forall t d r,
-  extract t = Some d -> ne_free t = true -> pandas_keep t r = Some (arrow_keep d r).
+  extract t = Some d -> pandas_keep t r = Some (arrow_keep d r).
 Proof. exact dnf_sound. Qed.
 Print Assumptions C03_reader_filter_sound.
-(* with `!=` the full statement is FALSE of the faithful model: a row whose compared value is missing
-   satisfies the pandas predicate but is dropped by the reader (defect D7; see known_findings.json) *)
+(* handing `!=` to the reader (the behaviour before the fix of defect D7) makes the statement FALSE: a row whose
+   compared value is missing satisfies the pandas predicate but is dropped by the reader *)
 Theorem C03_reader_filter_ne_refuted : exists t d r,
-  extract t = Some d /\ pandas_keep t r = Some true /\ arrow_keep d r = false.
-Proof. exact dnf_ne_refuted. Qed.
+  extract_with_ne t = Some d /\ pandas_keep t r = Some true /\ arrow_keep d r = false.
+Proof. exact dnf_with_ne_refuted. Qed.
 Print Assumptions C03_reader_filter_ne_refuted.
-(* ... and that is the ONLY way they can differ: every disagreement is a `!=` atom reading a missing value;
-   the reader never returns a row the predicate rejects *)
+(* the reader never returns a row the predicate rejects *)
 Theorem C03_reader_filter_under_approx : forall t d r,
   extract t = Some d -> arrow_keep d r = true -> pandas_keep t r = Some true.
 Proof. exact dnf_under_approx. Qed.
